@@ -35,6 +35,10 @@ def handle (op : String) (j : Json) : Option Json :=
                               ("holds", Spec.C15.holds ex m levels (getStr j "kind")),
                               ("shape_holds", Spec.C15.shapeHolds ex shape),
                               ("bare_numeric", Spec.C15.isBare r && ex.kind == "numeric"),
+                              ("class_d33", Spec.C15.classD33 r),
+                              ("d33_as_recorded", match Spec.C15.d33Returned env r with
+                                | .ok rec => Spec.C15.holds rec m levels (getStr j "kind")
+                                | .error _ => false),
                               ("unchanged", Spec.C15.unchanged ex m),
                               ("expected_rows", ex.matrix.length),
                               ("expected_levels", match ex.levels with | some l => jStrs l | none => Json.null),
